@@ -93,6 +93,18 @@ theorem C05_knots (tol : K) (htol : 0 < tol) (p a : ℕ) (hp : 1 ≤ p) (x0 xl :
   · intro hp2
     exact lowerOrder_raised tol htol p a hp2 x0 xl umid mmid hlen hsep hm
 
+omit [FloorRing K] in
+/-- **C05, generality of the `expand` form.**  Every knot list whose neighbours are either exactly
+equal or more than `tol` apart (the separation hypothesis, stated on the raw list) is
+`expand u m` with separated distinct knots `u` and positive multiplicities `m`; `C05_knots` applies
+to those whose first and last multiplicity equal the order (clamped bases). -/
+theorem C05_knots_form (tol : K) (h0 : 0 ≤ tol) (l : List K)
+    (h : ∀ i (h : i + 1 < l.length), l[i] = l[i+1] ∨ l[i] + tol < l[i+1]) :
+    ∃ (u : List K) (m : List ℕ), l = expand u m ∧ u.length = m.length ∧ Separated tol u ∧
+      (∀ j ∈ m, 1 ≤ j) := by
+  obtain ⟨u, m, h1, h2, h3, h4, _⟩ := exists_expand tol h0 l h
+  exact ⟨u, m, h1, h2, h3, h4⟩
+
 /-- **C05, geometry (partial).**  One parametric direction (curves; and every per-direction step
 of the tensor-product interpolation).  `o` has the single basis `b` and control net of shape
 `[n, nc]` (`nc` homogeneous components: rational objects included, the interpolation is done in
@@ -235,6 +247,43 @@ example : ∃ b', (openBasis 3 (clampedU (0 : ℚ) 2 [1]) (clampedM 3 [2])).rais
   have h := C05_knots (K := ℚ) (1/100) (by norm_num) 3 2 (by norm_num) 0 2 [1] [2] rfl
     (by simp [Separated, clampedU]; norm_num) (by simp)
   exact ⟨_, h.1, rfl, by simp [openBasis, clampedU, clampedM, expand, List.replicate], h.2.2.2.2.2.2.2.2.2 (by norm_num)⟩
+
+attribute [local instance] c05BasisDecEq
+
+/-- `raise_order(1)` of order 2 on `[0,0,1,1]` is order 3 on `[0,0,0,1,1,1]` (instance of `C05_knots`). -/
+example : c05B2.raiseOrder (1/100) 1 = .ok c05B3 :=
+  (C05_knots (K := ℚ) (1/100) (by norm_num) 2 1 (by norm_num) 0 1 [] [] rfl
+    (by simp [Separated, clampedU]; norm_num) (by simp)).1
+
+/-- The hypotheses of `C05_geometry_partial` are jointly satisfiable for a genuine elevation
+    (order 2 → 3; the zero map, for which `H_incl` is immediate).  `H_sw` (the certified inverse of
+    the 3×3 Greville collocation matrix) and the Greville points are evaluated by the kernel. -/
+example : ∃ o', (c05Zero 2 c05B2).raiseOrderImplicit (1/100) [1] = .ok o' ∧ o'.bases = #[c05B3] ∧
+    ∀ i, i < 3 → ∀ c, c < 2 → o'.cps.get (i * 2 + c) = 0 := by
+  have hr : c05B2.raiseOrder (1/100) 1 = .ok c05B3 :=
+    (C05_knots (K := ℚ) (1/100) (by norm_num) 2 1 (by norm_num) 0 1 [] [] rfl
+      (by simp [Separated, clampedU]; norm_num) (by simp)).1
+  have h := (C05_geometry_partial (c05Zero 2 c05B2) (1/100) c05B2 c05B3 1 #[0, 1/2, 1] 2 2 rfl rfl
+    hr (by decide +kernel) (fun _ _ => 0)
+    (by intro t c _; simp [c05Zero_get])).1 #[#[1,0,0],#[-1/2,2,-1/2],#[0,0,1]] (by decide +kernel)
+  obtain ⟨o', h1, h2, _, _, h5, _⟩ := h
+  exact ⟨o', h1, h2, h5⟩
+
+/-- … and those of `C05_lower_left_inverse_partial` (order 3 → 2; `lower_order`, Greville points and
+    `H_sw` evaluated by the kernel). -/
+example : ∃ o'', (c05Zero 3 c05B3).lowerOrder (1/100) [1] = .ok (.new, o'') ∧ o''.bases = #[c05B2] := by
+  have h := C05_lower_left_inverse_partial (c05Zero 2 c05B2) (c05Zero 3 c05B3) (1/100) c05B2 c05B3 1
+    (by norm_num) #[0, 1] 2 3 2 #[#[1,0],#[0,1]] rfl rfl (by decide +kernel) (by decide +kernel)
+    (by decide +kernel) (by decide +kernel) (by intro t c _; simp [c05Zero_get])
+  obtain ⟨o'', h1, h2, _⟩ := h
+  exact ⟨o'', h1, h2⟩
+
+/-- A concrete run of the model's Greville interpolation, evaluated by the kernel: the segment with
+    control points `(0,0), (2,4)` re-interpolated on the order-3 basis gives the classical elevated
+    net `(0,0), (1,2), (2,4)`. -/
+example : ((({ bases := #[c05B2], cps := { shape := [2, 2], data := #[0,0,2,4] }, rational := false } :
+      Obj ℚ).reinterpolate (1/100) [c05B3]).toOption.map (fun t => (t.shape, t.data)))
+    = some ([3, 2], #[0,0,1,2,2,4]) := by decide +kernel
 
 /-- The model of `Curve.raise_order(0)` returns `None` (the pinned code's behaviour), not the receiver. -/
 example (o : Obj ℚ) (tol : ℚ) : o.curveRaiseOrder tol 0 = .ok (.none, o) := by
